@@ -1,40 +1,72 @@
 """What MANIFEST.json claims, per property.  A property appears in CLAIMS only once its check passes on the
 unchanged tree; everything else is listed in NOT_APPLICABLE with the reason (kept current)."""
 
-T = "Lean 4 theorem about the executable model + checked model-vs-code correspondence (differential) + spec-vs-code differential for replay"
+T = ("Lean 4 theorems (kernel-checked, no Mathlib) about a hand-written executable model of the code + "
+     "model-vs-code correspondence on the same inputs + specification-vs-code differential producing the replay")
 
 CLAIMS = {}
 NOT_APPLICABLE = {}
 
-PENDING = "check not built yet in this session (planned: Lean model + theorem + correspondence, see DESIGN.md)"
-
-for pid in ["C%02d" % i for i in range(1, 21)]:
-    NOT_APPLICABLE[pid] = PENDING
-
 
 def claim(pid, text, ref, note=""):
     CLAIMS[pid] = (T, text, ref, note)
-    NOT_APPLICABLE.pop(pid, None)
 
 
-claim("C01", "Correspondence (regex text, stream, match results, all on the real code) plus the window specification evaluated in Lean and independently in Python on every case; Lean theorems for the model are stated in lean/Jasm/Properties/C01.lean.", "DESIGN.md 7 C01")
-claim("C02", "As C01 with repetitions in both spellings; denotational specification (iterDen) vs implementation verdict and matched texts; unrolling metamorphic check.", "DESIGN.md 7 C02")
-claim("C03", "As C01 with nested $or/$and/$and_any_order at instruction, operand and deref level; or-split metamorphic check.", "DESIGN.md 7 C03")
-claim("C04", "As C01 with $not in leading/inner/trailing/repeated/operand position.", "DESIGN.md 7 C04")
-claim("C05", "As C01 with instruction- and operand-level captures on the spine; register families recorded as known findings.", "DESIGN.md 7 C05")
-claim("C06", "As C01 for $deref over the 8 field combinations and near-miss operands through the real parser.", "DESIGN.md 7 C06")
-claim("C07", "Alignment of every reported match and address checked on the implementation's outputs and against the specification's scan.", "DESIGN.md 7 C07")
-claim("C11", "All-matches / first-match texts vs the specification's leftmost non-overlapping scan.", "DESIGN.md 7 C11")
-claim("C12", "The property's equations checked on the implementation's outputs in all 8 mode combinations, and each output against the model.", "DESIGN.md 7 C12")
+COMMON = (" The check rebuilds the proofs, audits their axioms, regenerates the constants table from /repo (T0), then runs "
+          "the real code and the model on generated inputs: a disagreement is a broken correspondence, a contradiction "
+          "between the real code and the specification evaluated in Lean is a violation with the input as replay.")
 
-claim("C08", "Stream of the real pipeline vs expected (address, mnemonic) per instruction line over the validated objdump grammar, vs the model stream on grammar / mutated / real objdump / test listings.", "DESIGN.md 7 C08")
-claim("C09", "Operand normal forms of the Lean specification (cross-checked by an independent Python table) vs the decoded real stream for every AT&T operand form.", "DESIGN.md 7 C09")
-claim("C10", "The real stream must decode to exactly the instruction list the real parser hands over; streams compared with the model's encoding; injectivity watched over all streams of the run.", "DESIGN.md 7 C10")
-claim("C13", "Regex of the macro rule = regex of the inlined rule on the real code for random factorings in all supported use forms; definitions deep-compared before/after; expanded tree vs the model.", "DESIGN.md 7 C13")
-claim("C14", "Random operation sequences in one interpreter vs each operation alone in a fresh interpreter and vs the model's state machine.", "DESIGN.md 7 C14")
-claim("C15", "Binary route vs text route on objdump's own output for random multi-section objects; objdump argv logged through a PATH shim vs the model's objdumpArgs.", "DESIGN.md 7 C15")
-claim("C16", "Pairs of listings with equal instruction sequences and random presentation edits: equal real streams and results; model stream compared.", "DESIGN.md 7 C16")
-claim("C17", "Each listed fault injected alone into a found baseline, assembly and binary, bool and list modes: must raise; outcome class vs the model.", "DESIGN.md 7 C17")
-claim("C18", "Per-instruction tagging oracle at the range boundaries, untouched instructions unchanged, `call: [valid_addr]` reports exactly the tagged calls; stream vs the model.", "DESIGN.md 7 C18")
-claim("C19", "Every reference position x defined-before/after/undefined: compile fails naming the macro or the regex contains no @; outcome and regex vs the model.", "DESIGN.md 7 C19")
-claim("C20", "python -m jasm.main in a scratch directory vs the API for every option combination; argument rules and non-zero exit on failure.", "DESIGN.md 7 C20")
+claim("C01", "Theorem C01: for every non-empty list of literal items, all 4 flag settings and every well-formed listing, the "
+      "engine model's search on the stream finds the compiled rule iff a window of consecutive instructions exists at which "
+      "every item holds (master theorem + alignment); C01_locality." + COMMON, "DESIGN.md 0.2, 7 C01",
+      "Hypotheses: literal names (no regex metacharacters, no , |), operand names not of the form [0-9a-f]+h (finding D11), "
+      "records of at most 1000 characters, lower-case hex addresses, no :: inside a record body.")
+claim("C02", "Theorems C02_bounds (times {lo,hi} = n-fold composition, lo <= n <= hi, each repetition consuming what one occurrence "
+      "consumes), C02_unroll (times n = written n times, at regex level), C02_spellings, for every item/group of the capture-free "
+      "literal fragment." + COMMON, "DESIGN.md 0.2, 7 C02", "Fragment: items and $and/$or/$not/$and_any_order groups nested arbitrarily; no captures inside (C05).")
+claim("C03", "Theorems C03_or / C03_and / C03_anyOrder (some permutation q ~ l, each child once) at instruction and operand level, "
+      "C03_no_merge, C03_perms." + COMMON, "DESIGN.md 0.2, 7 C03", "$deref fields containing $or: correspondence only.")
+claim("C04", "Theorems C04_instruction, C04_operand (exactly one instruction/operand, iff the argument fails there), C04_seq." + COMMON,
+      "DESIGN.md 0.2, 7 C04", "Capture-free literal fragment; the repairs D2+D3 are part of the tree.")
+claim("C05", "Theorem C05_spine: environment-threaded master theorem for the capture spine (engine groups by registration index mirror "
+      "bindings by name; first occurrence binds the whole instruction body / whole non-empty operand, later occurrences match only "
+      "identical text, names independent), C05_invariant, clause theorems, C05_twice; counter-example theorems for the register "
+      "families." + COMMON, "DESIGN.md 0.2, 7 C05",
+      "References inside $or/$not/$and_any_order/times: correspondence only. Register-family captures (D5, D15) and captures under "
+      "operand-level operators (D13) violate the property: known findings, proved about the model by decide +kernel and replayed on the code.")
+claim("C06", "Theorems C06_rx (language of the compiled $deref = the specification's texts, all 8 field combinations, on any input), "
+      "C06_field, C06_no_field, C06_end_to_end (through the parser's normal form, C09)." + COMMON, "DESIGN.md 0.2, 7 C06",
+      "Literal components; rejection of near-miss operands by decided examples plus the differential.")
+claim("C07", "Theorems C07_all / C07_first (every reported match is the text of whole consecutive records n..n+k-1 and the reported address "
+      "is that of record n), C07_no_span_*; C07_any_counterexample for the shipped @any." + COMMON, "DESIGN.md 0.2, 7 C07",
+      "Capture-free literal fragment with any operator leading, compiled regex without empty match (syntactic class nonNull proved); @any: finding D6.")
+claim("C08", "Theorems C08_inst, C08_line, C08_listing, C08_stream: parser o renderer over the objdump grammar yields exactly one stream "
+      "instruction per instruction line (address, mnemonic token, normal-form operands), nothing for other lines, never fails." + COMMON,
+      "DESIGN.md 0.2, 7 C08", "The grammar LineSpec is an assumption about GNU objdump 2.40, validated by classifying real objdump output (T5).")
+claim("C09", "Theorem C09 (and C09_split, C09_normal_form): the operand text of an instruction with any number of operands of the AT&T "
+      "forms is split into exactly its operands, each in normal form." + COMMON, "DESIGN.md 0.2, 7 C09", "Components free of ( ) ,.")
+claim("C10", "Theorems C10_roundtrip (decode (encode L) = L), C10_injective, C10_bar_count; counter-examples showing the hypotheses are needed." + COMMON,
+      "DESIGN.md 0.2, 7 C10", "Inst.WF is a hypothesis on parser output; objdump's branch-hint mnemonics violate it (finding D7).")
+claim("C11", "Theorem C11: the all-matches result on the stream is the text of an instruction-level leftmost non-overlapping scan (ScanI); "
+      "C11_nonNull, C11_first." + COMMON, "DESIGN.md 0.2, 7 C11", "Patterns that can match the empty sequence are outside the quantifier.")
+claim("C12", "Theorems C12_bool_iff_list, C12_first_is_prefix_of_all, C12_address_only, C12_verdict_mode_independent for every regex and stream; "
+      "the equations are also checked on the real outputs in all 8 mode combinations." + COMMON, "DESIGN.md 0.2, 7 C12")
+claim("C13", "Theorems C13 / C13_passes (the expander's passes = sequential manual inlining), C13_uses_independent, C13_files; on the real code: "
+      "regex of the macro rule = regex of the inlined rule for random factorings, definitions deep-compared before/after." + COMMON,
+      "DESIGN.md 0.2, 7 C13", "Parameterised macros and Python object aliasing: correspondence only.")
+claim("C14", "Theorems C14_step, C14 (any history), C14_idempotent on the modelled singleton; operation sequences in one interpreter vs a fresh "
+      "interpreter each on the real code." + COMMON, "DESIGN.md 0.2, 7 C14", "Interpreter-level state outside JASMConfig: fresh-process comparison only.")
+claim("C15", "Theorems C15_args, C15_route, C15_objdump_failure; binary route vs text route on objdump's own output for random multi-section "
+      "objects, argv observed through a PATH shim." + COMMON, "DESIGN.md 0.2, 7 C15", "objdump is an uninterpreted parameter; process creation is runtime.")
+claim("C16", "Theorem C16 (corollary of C08_stream), C16_presentation, C16_other_lines, C16_results; paired listings with random presentation edits "
+      "on the real code." + COMMON, "DESIGN.md 0.2, 7 C16", "Over the grammar; listings without the byte column: finding D12.")
+claim("C17", "16 theorems C17_* (one per fault class: unreadable inputs, failing disassembler, wrongly-typed entries, empty group, $not arity, "
+      "$deref without main_reg, negative/inverted times, undefined macro, error propagation); each fault injected into a found baseline on the real code." + COMMON,
+      "DESIGN.md 0.2, 7 C17", "OS faults enter through World parameters; python -O is not used.")
+claim("C18", "Theorems C18_tag (inclusive bounds), C18_indirect, C18_nonbranch, C18_shape, C18_count_order, C18_no_option; per-instruction oracle at the "
+      "range boundaries on the real code." + COMMON, "DESIGN.md 0.2, 7 C18")
+claim("C19", "Theorems C19 (no @ leaf, key or value survives a successful expansion), C19_reported, C19_named; every reference position x "
+      "defined-before/after/undefined on the real code." + COMMON, "DESIGN.md 0.2, 7 C19")
+claim("C20", "Theorems C20_args, C20_required, C20_log, C20_exit on the model of the argparse configuration and main(); python -m jasm.main vs the API "
+      "for every option combination, model vs real argparse on random command lines." + COMMON, "DESIGN.md 0.2, 7 C20",
+      "argparse internals, logging handlers and exit-status conventions are runtime.")
